@@ -196,8 +196,21 @@ func decideable(hasRefs bool, text string, draft7 bool, instText string) bool {
 
 func (c10) exercise(c *fw.Case, rs *jsonschema.Resolved, schemaText string, hasRefs, draft7 bool, what string) {
 	r := c.R
-	for k := 0; k < 4; k++ {
+	var parsed any
+	if json.Valid([]byte(schemaText)) {
+		parsed = gen.Parse(schemaText)
+	}
+	for k := 0; k < 5; k++ {
 		im := gen.Value(r, gen.ValueOpts{MaxDepth: 3, BigInts: true, MaxLen: 3}, 0)
+		switch {
+		case k == 3 && r.IntN(3) == 0:
+			im = gen.LongValue(r) // size stress: 63..257 items / properties
+		case k == 4:
+			if _, isObj := parsed.(map[string]any); !isObj {
+				continue
+			}
+			im = gen.Instances(r, parsed, 1, false)[0] // schema-directed (reaches past the first type check)
+		}
 		itext := gen.Text(im)
 		if !decideable(hasRefs, schemaText, draft7, itext) {
 			c.Count("not_decided_possible_inplace_cycle", 1)
